@@ -644,7 +644,9 @@ pub async fn handle_changes(
             res = join_set.join_next(), if !join_set.is_empty() => {
                 debug!("processed multiple changes concurrently");
                 #[cfg(feature = "verif")]
-                klukai_types::verif::emit("ingest_done", serde_json::json!({"node": agent.actor_id(), "ok": matches!(res, Some(Ok((_, Ok(()))))), "inflight": join_set.len()}));
+                let verif_ok = matches!(res, Some(Ok((_, Ok(())))));
+                #[cfg(feature = "verif")]
+                let mut verif_forgotten = vec![];
                 if let Some(Ok((changes, res))) = res {
                     if let Err(e) = res {
                         error!("could not process multiple changes: {e}");
@@ -668,9 +670,13 @@ pub async fn handle_changes(
                         };
                         if !held {
                             forget_seen(&mut seen, &change);
+                            #[cfg(feature = "verif")]
+                            verif_forgotten.push(verif_change_json(&change));
                         }
                     }
                 }
+                #[cfg(feature = "verif")]
+                klukai_types::verif::emit("ingest_done", serde_json::json!({"node": agent.actor_id(), "ok": verif_ok, "forgotten": verif_forgotten, "inflight": join_set.len()}));
                 continue;
             },
 
